@@ -102,9 +102,10 @@ def analyse_generator(repo, fn, arity):
     for (n, base, enum) in loops:
         idx, el = _loop_target_names(n.target) if enum else (None, _loop_target_names(n.target)[1])
         whole = isinstance(base, ast.Name) and base.id in params
-        g.loops.append({"node": n, "iter": base, "enumerated": enum, "index": idx, "element": el, "whole": whole,
-                        "param": base.id if whole else None})
-        g.list_params.append(base.id if whole else None)
+        inside = sorted({x.id for x in ast.walk(base) if isinstance(x, ast.Name) and x.id in params})
+        pname = base.id if whole else (inside[0] if len(inside) == 1 else None)
+        g.loops.append({"node": n, "iter": base, "enumerated": enum, "index": idx, "element": el, "whole": whole, "param": pname})
+        g.list_params.append(pname)
     # unpacking of the loop elements:   a, b, c = element
     g.comp_of = {}     # local name -> (loop number, component)
     for n in ast.walk(fn):
